@@ -3,10 +3,16 @@ import Proofs.CoSchedules
 import Proofs.CoPhantom
 import Proofs.CoReadOnly
 import Proofs.CoDrainExamples
+import Proofs.CoDrainChildren
+import Proofs.CoDrainLinks
+import Proofs.CoDrainCited
+import Proofs.CoDrainSlow
 /-! C16 — cooperative interleaving of generators. All eleven `*_iter` generators of traph.py are explicit coroutine
     state machines (`Traph/Co.lean`: the two writers, the page and network queries, and the seven other queries under
     `CoSt.query`) holding the same stale node copies as the Python generators; `Sys.run` / `runSched`
-    interleave them under any schedule. Proved (Proofs/Co*): for EVERY schedule the index stays well-formed and
+    interleave them under any schedule. The seven new query machines drained on a fixed index compute the atomic
+    answers (`C16_drained_queries_atomic`, Proofs/CoDrain*); all nine query machines never write
+    (`C16_all_queries_readonly`). Proved (Proofs/Co*): for EVERY schedule the index stays well-formed and
     only grows (`C16_any_schedule_shape`), no writer fails (`C16_no_writer_fails`), the final pages are those of
     the requests applied one after another in any order (`C16_final_pages`, `_sequential_rulesOk`), link lists
     are never overwritten (`C16_links_any_schedule`), page queries list only pages (`C16_pages_query_sound`) and
@@ -63,6 +69,29 @@ theorem C16_drain_examples :
     QSt.drain DrainEx.idx 100 (.netSlow { out := true, auto := true }) = DrainEx.idx.ask (.network true true true) :=
   ⟨DrainEx.crawled_drain.1, DrainEx.mostLinked_drain.1, DrainEx.children_drain.1, DrainEx.pagelinks_drain.1,
    DrainEx.cited_drain.1, DrainEx.cited_drain.2.1, DrainEx.netSlow_drain.1⟩
+
+/-- **the seven new generators run to completion without interleaving give exactly the atomic answers**: on every index that
+    represents a search tree (`Shape`) with backward-pointing stubs and heads in range (`HeadsOk`) — both proved of every
+    reachable index and kept by every schedule (`C16_any_schedule_shape`, `C16_links_any_schedule`) — draining a fresh
+    machine (`QSt.drain` = `run_iterator`) for at least `N0` sections yields the answer of the atomic request of `Traph/Api.lean`,
+    for well-formed prefixes and all parameters -/
+theorem C16_drained_queries_atomic {s : State} {t : T} (h : Shape s t) (hk : HeadsOk s) (weid : Nat) (ps : List Bytes)
+    (hps : ∀ pf ∈ ps, lruIter pf ≠ []) (k : Nat) (d : Option Nat) (incIn incInt incOut out auto : Bool) :
+    ∃ N0, ∀ N, N0 ≤ N →
+      QSt.drain s N (.crawled { cur := { prefixes := ps } }) = s.ask (.crawledPages ps) ∧
+      QSt.drain s N (.mostLinked { cur := { prefixes := ps, depth := d }, k := k }) = s.ask (.mostLinked ps k d) ∧
+      QSt.drain s N (.children { cur := { prefixes := ps, skip := true }, weid := weid }) = s.ask (.children weid ps) ∧
+      QSt.drain s N (.pagelinks { cur := { prefixes := ps }, weid := weid, incIn := incIn, incInt := incInt, incOut := incOut })
+        = s.ask (.pagelinks weid ps incIn incInt incOut) ∧
+      QSt.drain s N (.cited { cur := { prefixes := ps }, out := out }) = s.ask (.cited ps out) ∧
+      QSt.drain s N (.netSlow { out := out, auto := auto }) = s.ask (.network out auto true) := by
+  obtain ⟨n1, h1⟩ := Traph.pagelinks_drain_shape h weid ps incIn incInt incOut hps
+  obtain ⟨n2, h2⟩ := Traph.cited_drain_shape h hk.1 ps out hps
+  refine ⟨(s.trie.size + 2) * ps.length + 2 + n1 + n2 + ((s.trie.size + 1) * (s.links.size + 1) + 2), fun N hN => ?_⟩
+  have hle : (s.trie.size + 1) * ps.length ≤ (s.trie.size + 2) * ps.length := Nat.mul_le_mul_right _ (by omega)
+  exact ⟨Traph.crawled_drain_shape h ps hps N (by omega), Traph.mostLinked_drain_shape h ps k d hps N (by omega),
+    Traph.children_drain_shape h weid ps hps N (by omega), h1 N (by omega), h2 N (by omega),
+    Traph.netSlow_drain_shape h out auto N (by omega)⟩
 
 /-- a finished generator cannot be advanced (StopIteration), and does not touch the index -/
 theorem C16_finished (s : State) : (CoSt.finished.resume s).1 = s ∧ (CoSt.finished.resume s).2.2 = .failed (.other "StopIteration") :=
